@@ -24,6 +24,9 @@ THEOREMS = [
     "c03_no_initialized_on_failure",
     "c03_outcome_total",
     "c03_tracking_mode",
+    "c03_success_implies_handed",
+    "c03_stalled_writer_never_success",
+    "c03_handed_only_on_success",
     "c03_default_list",
 ]
 RULE = (
@@ -32,7 +35,8 @@ RULE = (
     "whitespace twin, 14 malformed result shapes, JSON-RPC errors of every named code of types/errors.py + samples x messages with and "
     "without the words 'protocol version', silence}; quick: all version answers + silence for every (list, preferred) and a seeded "
     "rotation of malformed/error answers, thorough: the full product; real send_initialize(_with_client_tracking) under the "
-    "virtual-time loop vs clientInit/trackedInit; non-trivial = distinct (list, preferred, answer, tracking)"
+    "virtual-time loop vs clientInit/trackedInit; slow-writer: the same call with a write stream of buffer 0 / 1 (full or empty) "
+    "whose reader takes the notification 1, T-1, T, T+1, 2T ticks after answering or never, vs clientInitW; non-trivial = distinct (list, preferred, answer, tracking)"
 )
 TRUSTED = [
     "Gen/Versions.lean regenerated from versioning.py (SUPPORTED_VERSIONS) and batching.py (if-chain of supports_batching)",
@@ -41,6 +45,7 @@ TRUSTED = [
 ASSUMPTIONS = [
     "supported lists are lists of versions: non-empty, no empty-string member (an empty preferred string counts as absent)",
     "the peer answers the initialize request at most once; C01 covers foreign traffic before the answer",
+    "sent = the write stream's send completed (the item is with the write side: taken by its reader or in its buffer)",
     "supports_batching itself is C13's subject; here the tracked mode is compared with it",
 ]
 
@@ -181,7 +186,12 @@ class ClientInit(Suite):
                         {"v": s})
             want = [{"w": "initialize", "v": want_prop}, {"w": "answered"}, {"w": "initialized"}]
             if canon(trace) != canon(want):
-                return ("initialized-not-exactly-once", f"successful initialization with transcript {canon(trace)}", {"trace": want})
+                side = ""
+                if "wbuf" in case:
+                    side = (f" (write stream of buffer size {case['wbuf']}{' holding a foreign message' if case.get('filler') else ''}; the peer "
+                            f"takes the notification {'never' if case.get('take') is None else str(case['take']) + ' ticks after answering'}; "
+                            f"timeout {case['D']} ticks): what reached the write side is")
+                return ("initialized-not-exactly-once", f"successful initialization{side} with transcript {canon(trace)}", {"trace": want})
             if case.get("track"):
                 wt = {"v": v, "batching": V.real_supports_batching(v)}
                 b = o.get("batch") or {}
@@ -190,6 +200,8 @@ class ClientInit(Suite):
                     return ("tracked-mode", f"negotiated {v!r}: tracked client reports {canon(o.get('tracked'))} / {canon(b)}",
                             {"tracked": wt})
             return None
+        if o["outcome"] == "blocked":
+            return None  # the call has not returned: nothing is claimed yet
         # every non-success outcome
         if n_initd:
             return ("initialized-after-failure", f"answer {canon(ans)} ended in {o['outcome']} but the initialized notification was "
@@ -252,5 +264,86 @@ class BatchingGuard(Suite):
         return "batching-mode/" + ("on" if o["batching"] else "off")
 
 
+class SlowWriter(ClientInit):
+    """Write-side backpressure: the write stream is a rendezvous (buffer 0) or full (buffer 1 holding
+    somebody else's message); the peer reads the request, answers, and takes the next item only `take`
+    ticks later (around the caller's timeout T: T-1, T, T+1, 2T) or never.  A success must still have
+    handed exactly one notification over before returning; otherwise the call must not be a success."""
+
+    name = "slow-writer"
+
+    def cases(self, ctx, budget):
+        rng = ctx.sub_rng("c03-slow", budget)
+        T = 256
+        takes = [1, T - 1, T, T + 1, 2 * T, None]
+        sides = [{"wbuf": 0, "filler": False}, {"wbuf": 1, "filler": True}, {"wbuf": 1, "filler": False}]
+        lists = [None, ["2025-06-18", "1999-12-31"], ["2024-11-05"], ["draft-7", "2025-03-26", "2025-06-18"]]
+        if budget != "quick":
+            lists += [l for l in all_lists(2)]
+        rpcs = rpc_answers(full=False)
+        out = []
+        k = 0
+        for sup in lists:
+            eff = sup if sup is not None else V.server_supported()
+            for pref in (None, eff[-1], V.OUTSIDE):
+                answers = [{"k": "version", "s": s} for s in dict.fromkeys([eff[0], eff[-1], V.OUTSIDE, "2026-01-01"])]
+                answers += [{"k": "silence"}, {"k": "malformed", "shape": rng.choice(sorted(V.MALFORMED))}, rng.choice(rpcs)]
+                for ans in answers:
+                    for side in sides:
+                        for take in takes:
+                            k += 1
+                            c = {"sup": sup, "pref": pref, "ans": dict(ans), "D": T, "at": (1, 10, 100)[k % 3],
+                                 "tie": ("events", "timers")[(k // 3) % 2], "track": k % 2 == 0, "take": take}
+                            c.update(side)
+                            out.append(c)
+                            if ans["k"] == "version" and ans["s"] in eff and take in (T, T + 1, None):
+                                out.append(dict(c, tie=("timers", "events")[(k // 3) % 2], track=not c["track"]))
+        ctx.exhaustive_parts.append(
+            "slow-writer: write stream buffer 0 / 1+foreign message / 1 empty x peer taking the notification 1, T-1, T, T+1, 2T ticks "
+            "after its answer or never x both orders at equal instants")
+        return out
+
+    @staticmethod
+    def write_side(case):
+        """the model's WriteSide: an empty buffer of size >=1 takes the notification at once"""
+        if case.get("wbuf") is None or (case["wbuf"] >= 1 and not case.get("filler")):
+            return 0
+        return case.get("take")
+
+    def model_line(self, case):
+        m = super().model_line(case)
+        m["op"] = "clientw"
+        m["take"] = self.write_side(case)
+        return m
+
+    def compare(self, case, o, m):
+        if o.get("harness"):
+            return None
+        slow = self.write_side(case) is None or self.write_side(case) >= case["D"] - 1
+        if slow and m["outcome"] in ("ok", "blocked") and o["outcome"] not in ("ok", "blocked"):
+            # the model is the code's unbounded blocking send.  Giving up LOUDLY on a stalled writer (an
+            # exception, nothing handed over) is equally within the property: not a divergence.
+            return None if not any(e["w"] == "initialized" for e in o["trace"]) else "failure after a hand-over"
+        if o["outcome"] != m["outcome"]:
+            return "outcome class differs"
+        if o["outcome"] == "ok" and o.get("v") != m.get("v"):
+            return "returned version differs"
+        if canon(o["trace"]) != canon(m["trace"]):
+            return "transcript differs"
+        return None
+
+    def kind(self, case, o):
+        side = "buf%s%s" % (case.get("wbuf"), "+full" if case.get("filler") else "")
+        take = case.get("take")
+        rel = "never" if take is None else ("prompt" if take < case["D"] - 1 else "around-or-after-timeout")
+        return f"slow-writer/{side}/{rel}/{case['ans']['k']}/{o.get('outcome')}"
+
+    def shrink_candidates(self, case):
+        for c in super().shrink_candidates(case):
+            yield c
+        if case.get("filler"):
+            yield dict(case, wbuf=0, filler=False)
+
+
 def suites():
-    return [ClientInit(), BatchingGuard()]
+    return [ClientInit(), SlowWriter(), BatchingGuard()]
